@@ -1,5 +1,5 @@
-// Slice d18b: the SHAPE CHECKS of the collection and structure decoders of cty/gocty/out.go — fromCtyList,
-// fromCtySet, fromCtyMap, fromCtyTuple — translated by the same statement translator as the scalar decoders
+// Slice d18b: fromCtyValue (cty.Value passthrough, null and unknown guards, dispatch on the type kind) and the SHAPE CHECKS of the
+// collection and structure decoders of cty/gocty/out.go — fromCtyList, fromCtySet, fromCtyMap, fromCtyTuple, fromCtyObject — translated by the same statement translator as the scalar decoders
 // (translate_gocty.go) into lean/CtyModel/Generated/GoctyShapeFns.lean; Lemmas/d18bShapeTie.lean proves them equal
 // to the cases of the hand-written model Gocty.fromCtyP.
 //
@@ -12,6 +12,8 @@
 //	path          statements that only update the erased cty.Path are dropped (three exact forms)
 //	reflect/cty   val.IsNull/IsKnown/LengthInt/Type/Index(cty.NumberIntVal(int64(i))), Type.TupleElementTypes, len(xs),
 //	              target.Len/Field(i).CanSet, Type.NumField/Key, target.Set(reflect.Zero(target.Type()))
+//	views         deepTarget := fromCtyPopulatePtr(target, false) | target = fromCtyPopulatePtr(target, true) | target = deepTarget:
+//	              the code goes on with a pointee of the target; what is written there is lifted back (GoctyGo.populateLift)
 //	closures      NOT translated.  The five `val.ForEachElement(func …)` loops, each with the statements that prepare
 //	              and consume its variables, are PINNED REGIONS: the source text of the region must be, token for token,
 //	              the text below; the region then stands for one given-API function (GoctyShapeGo.lean).  Any edit inside a
@@ -28,13 +30,16 @@ import (
 )
 
 // the functions that take `rec_`
-var gcRecFuncs = map[string]bool{"fromCtyList": true, "fromCtySet": true, "fromCtyMap": true, "fromCtyTuple": true, "fromCtyObject": true}
+var gcRecFuncs = map[string]bool{"fromCtyList": true, "fromCtySet": true, "fromCtyMap": true, "fromCtyTuple": true, "fromCtyObject": true, "fromCtyValue": true}
 
 // the functions that range over a Go map inside a pinned region: they take the order `ord_` in which the attribute names are visited
-var gcOrdFuncs = map[string]bool{"fromCtyObject": true}
+var gcOrdFuncs = map[string]bool{"fromCtyObject": true, "fromCtyValue": true}
+
+// functions of out.go that stay in the given API (not translated): capsules are outside the model
+var gcGivenFuncs = map[string]string{"fromCtyCapsule": "GoctyGo.fromCtyCapsule"}
 
 // the entry points of the second generated file
-var gcShapeRoots = []string{"fromCtyList", "fromCtySet", "fromCtyMap", "fromCtyTuple", "fromCtyObject"}
+var gcShapeRoots = []string{"fromCtyList", "fromCtySet", "fromCtyMap", "fromCtyTuple", "fromCtyObject", "fromCtyValue"}
 
 var gcPureCalls = map[string]bool{"target.Len()": true}
 
@@ -48,6 +53,12 @@ func init() {
 	gcMethods[gcVal]["Type"] = gcPrim{"Value.ty", nil, []gcShape{gcCtyTy}, false}
 	gcMethods[gcCtyTy] = map[string]gcPrim{
 		"TupleElementTypes": {"GoctyGo.tupleElementTypes", nil, []gcShape{gcTyList}, true},
+		"IsListType":        {"GoctyGo.isListType", nil, []gcShape{gcBool}, false},
+		"IsMapType":         {"GoctyGo.isMapType", nil, []gcShape{gcBool}, false},
+		"IsSetType":         {"GoctyGo.isSetType", nil, []gcShape{gcBool}, false},
+		"IsObjectType":      {"GoctyGo.isObjectType", nil, []gcShape{gcBool}, false},
+		"IsTupleType":       {"GoctyGo.isTupleType", nil, []gcShape{gcBool}, false},
+		"IsCapsuleType":     {"GoctyGo.isCapsuleType", nil, []gcShape{gcBool}, false},
 	}
 	gcMethods[gcTarget]["Len"] = gcPrim{"GoctyGo.targetLen", nil, []gcShape{gcInt}, true}
 	gcMethods[gcGoTy]["NumField"] = gcPrim{"GoctyGo.numField", nil, []gcShape{gcInt}, true}
@@ -278,12 +289,15 @@ func (c *gcCtx) shapeStmts(list []ast.Stmt, en gcEnv, k func(gcEnv) string) (str
 	if gcIsPathStmt(s, en) {
 		return next(en), true
 	}
+	if out, ok := c.viewStmt(s, en, next); ok {
+		return out, true
+	}
 	switch s := s.(type) {
 	case *ast.ExprStmt:
 		// target.Set(reflect.Zero(target.Type()))
 		if c.target != "" && gcNorm(src(s.X)) == c.target+".Set(reflect.Zero("+c.target+".Type()))" {
 			c.use("GoctyGo.setZero", "reflect.Value.Set(reflect.Zero(target.Type()))")
-			return wrap([]bind{{c.targetState(), "(GoctyGo.setZero " + gcLv(c.target) + ")"}}, next(en)), true
+			return wrap([]bind{{c.targetState(), c.lifted(en, "(GoctyGo.setZero "+c.curTy(en)+")")}}, next(en)), true
 		}
 	case *ast.AssignStmt:
 		if len(s.Lhs) == 1 && len(s.Rhs) == 1 && s.Tok == token.DEFINE {
@@ -441,7 +455,8 @@ func writeGoctyShapeFns(t *gcTr, leanDir, hdr string, nOld int, apiOld map[strin
 	}
 	lb.WriteString("-- NOT translated: the five val.ForEachElement(func …) loops (closures) and the two loops over Go maps of fromCtyObject.  Each is a PINNED\n")
 	lb.WriteString("-- REGION: its source text is compared token for token with the text its given-API function was written against (any edit = broken tie).\n")
-	lb.WriteString("-- fromCtyValue, fromCtyPopulatePtr and fromCtyCapsule are tied by theorem on the hand-written model only.  GIVEN API (GoctyGo.lean, GoctyShapeGo.lean):\n")
+	lb.WriteString("-- fromCtyPopulatePtr (a loop over reflect values that allocates) is given API (populateTy / populateLift); fromCtyCapsule is not translated\n")
+	lb.WriteString("-- (capsules are outside the model).  GIVEN API (GoctyGo.lean, GoctyShapeGo.lean):\n")
 	var keys []string
 	for k := range t.usedAPI {
 		if !apiOld[k] {
@@ -462,3 +477,188 @@ func writeGoctyShapeFns(t *gcTr, leanDir, hdr string, nOld int, apiOld map[strin
 }
 
 func sortStrings(a []string) { sort.Strings(a) }
+
+// ---------------------------------------------------------------- views of the target (fromCtyValue)
+//
+// `deepTarget := fromCtyPopulatePtr(target, false)`, `target = fromCtyPopulatePtr(target, true)` and `target = deepTarget`
+// make the code work on a pointee of the target.  A view is the pointee's type and the function that rebuilds the value
+// the ORIGINAL target holds from the value written through the view; which view the name `target` currently stands for
+// is part of the environment (key gcViewKey), so it is scoped like an assignment.
+
+type gcView struct {
+	ty   string // Lean expression of the type the view has
+	lift string // Lean function GoVal → GoVal back to the original target ("" = identity)
+}
+
+const gcViewKey = "\x00view"
+
+func (c *gcCtx) view(en gcEnv) gcView {
+	if i, ok := en[gcViewKey]; ok {
+		return c.views[int(i)]
+	}
+	return gcView{ty: gcLv(c.target)}
+}
+
+func (c *gcCtx) curTy(en gcEnv) string { return c.view(en).ty }
+
+// the value the current view holds when a callee starts: the target's own state, or a fresh zero behind pointers just allocated
+func (c *gcCtx) curState(en gcEnv) string {
+	if v := c.view(en); v.lift != "" {
+		return "(Gocty.zeroVal " + v.ty + ")"
+	}
+	return c.targetState()
+}
+
+// an outcome of an operation on the current view, as an outcome for the original target
+func (c *gcCtx) lifted(en gcEnv, e string) string {
+	if v := c.view(en); v.lift != "" {
+		c.use("GoctyGo.liftRes", "writing through fromCtyPopulatePtr(target, …)")
+		return "(GoctyGo.liftRes " + v.lift + " " + e + ")"
+	}
+	return e
+}
+
+func (c *gcCtx) viewTyOf(name string, en gcEnv) string {
+	if name == c.target {
+		return c.curTy(en)
+	}
+	if i, ok := c.vvars[name]; ok {
+		return c.views[i].ty
+	}
+	return gcLv(name)
+}
+
+// fromCtyPopulatePtr(target, true|false) as a view of the current view
+func (c *gcCtx) populate(call *ast.CallExpr, en gcEnv) (gcView, bool) {
+	id, ok := call.Fun.(*ast.Ident)
+	if !ok || id.Name != "fromCtyPopulatePtr" || len(call.Args) != 2 {
+		return gcView{}, false
+	}
+	t, ok := call.Args[0].(*ast.Ident)
+	b, ok2 := call.Args[1].(*ast.Ident)
+	if !ok || !ok2 || t.Name != c.target || (b.Name != "true" && b.Name != "false") {
+		dieAt(call, "call %s", src(call))
+	}
+	cur := c.view(en)
+	c.use("GoctyGo.populateTy", "fromCtyPopulatePtr(target, decodingNull): the type of the value returned")
+	c.use("GoctyGo.populateLift", "fromCtyPopulatePtr(target, decodingNull): the pointers allocated on the way")
+	v := gcView{ty: "(GoctyGo.populateTy " + cur.ty + " " + b.Name + ")", lift: "(GoctyGo.populateLift " + cur.ty + " " + b.Name + ")"}
+	if cur.lift != "" {
+		v.lift = "(fun g => " + cur.lift + " (" + v.lift + " g))"
+	}
+	return v, true
+}
+
+func (c *gcCtx) addView(v gcView) int {
+	if len(c.views) == 0 {
+		c.views = append(c.views, gcView{ty: gcLv(c.target)})
+	}
+	c.views = append(c.views, v)
+	return len(c.views) - 1
+}
+
+// statements about views; ok = false: not one of them
+func (c *gcCtx) viewStmt(s ast.Stmt, en gcEnv, next func(gcEnv) string) (string, bool) {
+	switch s := s.(type) {
+	case *ast.AssignStmt:
+		if len(s.Lhs) != 1 || len(s.Rhs) != 1 {
+			return "", false
+		}
+		l, ok := s.Lhs[0].(*ast.Ident)
+		if !ok {
+			return "", false
+		}
+		if call, ok := s.Rhs[0].(*ast.CallExpr); ok {
+			if v, ok := c.populate(call, en); ok {
+				i := c.addView(v)
+				switch {
+				case s.Tok == token.DEFINE:
+					if _, dup := en[l.Name]; dup {
+						dieAt(s, "redeclaration or shadowing of %s", l.Name)
+					}
+					c.vvars[l.Name] = i
+					return next(en.with(l.Name, gcTarget)), true
+				case l.Name == c.target:
+					return next(en.with(gcViewKey, gcShape(i))), true
+				}
+				dieAt(s, "assignment %s", src(s))
+			}
+		}
+		// target = <view variable>
+		if r, ok := s.Rhs[0].(*ast.Ident); ok && s.Tok == token.ASSIGN && l.Name == c.target {
+			if i, ok := c.vvars[r.Name]; ok {
+				return next(en.with(gcViewKey, gcShape(i))), true
+			}
+		}
+	case *ast.ExprStmt:
+		// X.Set(reflect.ValueOf(val)) for a view variable X and a cty.Value val
+		call, ok := s.X.(*ast.CallExpr)
+		if !ok {
+			return "", false
+		}
+		sel, ok := call.Fun.(*ast.SelectorExpr)
+		if !ok || sel.Sel.Name != "Set" || len(call.Args) != 1 {
+			return "", false
+		}
+		x, ok := sel.X.(*ast.Ident)
+		if !ok {
+			return "", false
+		}
+		i, isView := c.vvars[x.Name]
+		if !isView {
+			return "", false
+		}
+		vo, ok := call.Args[0].(*ast.CallExpr)
+		if !ok || src(vo.Fun) != "reflect.ValueOf" || len(vo.Args) != 1 {
+			dieAt(s, "statement %s", src(s))
+		}
+		bs, v := c.expr(vo.Args[0], en)
+		if v.sh != gcVal {
+			dieAt(s, "%s.Set of a %s", x.Name, gcShapeNames[v.sh])
+		}
+		c.use("GoctyGo.setCval", "reflect.Value.Set(reflect.ValueOf(cty.Value))")
+		c.use("GoctyGo.liftRes", "writing through fromCtyPopulatePtr(target, …)")
+		vw := c.views[i]
+		bs = append(bs, bind{c.targetState(), "(GoctyGo.liftRes " + vw.lift + " (GoctyGo.setCval " + vw.ty + " " + v.e + "))"})
+		return wrap(bs, next(en)), true
+	}
+	return "", false
+}
+
+// a callee that stays in the given API
+func (c *gcCtx) givenFunc(name string, call *ast.CallExpr, en gcEnv) (string, bool) {
+	lean, ok := gcGivenFuncs[name]
+	if !ok {
+		return "", false
+	}
+	if len(call.Args) != 3 || !gcIsPathExpr(call.Args[2], en) {
+		dieAt(call, "call %s", src(call))
+	}
+	t, ok := call.Args[1].(*ast.Ident)
+	if !ok || t.Name != c.target {
+		dieAt(call, "target argument %s", src(call.Args[1]))
+	}
+	bs, v := c.expr(call.Args[0], en)
+	if v.sh != gcVal {
+		dieAt(call, "%s of a %s", name, gcShapeNames[v.sh])
+	}
+	c.use(lean, name+" (NOT translated: capsules are outside the model)")
+	return wrap(bs, c.lifted(en, "("+lean+" "+v.e+" "+c.curTy(en)+")")), true
+}
+
+// cty.Bool / cty.Number / cty.String
+func (c *gcCtx) shapeSelector(x *ast.SelectorExpr) (gcV, bool) {
+	id, ok := x.X.(*ast.Ident)
+	if !ok || id.Name != "cty" {
+		return gcV{}, false
+	}
+	switch x.Sel.Name {
+	case "Bool":
+		return gcV{"Ty.bool", gcCtyTy}, true
+	case "Number":
+		return gcV{"Ty.number", gcCtyTy}, true
+	case "String":
+		return gcV{"Ty.string", gcCtyTy}, true
+	}
+	return gcV{}, false
+}
